@@ -101,7 +101,24 @@ def gen_optstr(rng):
     return s
 
 
-def build(ctx, optstr, crlf=False, own_lf=False):
+def build(ctx, optstr, crlf=False, own_lf=False, blanks=0):
+    data, idx = _build(ctx, optstr, crlf, own_lf)
+
+    if blanks:
+        # a run of blank lines in front of the header in question (blank
+        # lines between sections carry no meaning)
+        nl = b'\r\n' if crlf else b'\n'
+        tgt = {'change': 1, 'file': 2, 'change2': 5}.get(ctx)
+        lines = data.split(b'\n')
+
+        if tgt is not None and tgt < len(lines):
+            lines[tgt:tgt] = [nl[:-1]] * int(blanks)
+            data = b'\n'.join(lines)
+
+    return data, idx
+
+
+def _build(ctx, optstr, crlf=False, own_lf=False):
     """(file bytes, index of the damaged section).  own_lf: in a CRLF file
     the damaged header itself ends in a bare LF (the file's newline style is
     fixed by its first header, so that line is not a header line)."""
@@ -148,6 +165,7 @@ def generate(rng, tier, cls):
             'stream': gen.gen_stream(rng)[0],
             'short_hdr': rng.randint(0, 999) if rng.chance(0.12) else None,
             'shadow': rng.below(50) if rng.chance(0.08) else None,
+            'blanks': rng.choice([0] * 20 + [1, 3, 200, 1200, 5000]),
             'block_size': rng.choice([None, None, 1, 5, 97])}
 
 
@@ -219,7 +237,9 @@ def execute(scn, L):
 
     crlf = bool(scn.get('crlf'))
     own_lf = crlf and bool(scn.get('own_lf'))
-    data, idx = build(ctx, optstr, crlf, own_lf)
+    blanks = scn.get('blanks') if isinstance(scn.get('blanks'), int) and \
+        0 <= scn.get('blanks') <= 6000 else 0
+    data, idx = build(ctx, optstr, crlf, own_lf, blanks)
     line = build_lf(ctx, optstr)[0].split(b'\n')[
         {'change': 1, 'file': 2, 'change2': 5}[ctx]]
     # in a CRLF file the line the grammar sees is the text before the CRLF
